@@ -104,6 +104,11 @@ def generate(seed, stratum, tier):
     c0.append(['timed', 0, rng.choice(['fifo', 'lifo']), 'TX', p * rng.choice([0.5, 1, 3]), rng.choice([0, 1, 3]), rng.choice([False, False, True, None]), cap + x])
   sc = {'objects': aw.default_objects(1), 'queue_size': cap, 'clients': [c0], 'horizon_s': p * rng.randrange(3, 9) + 2 * p,
         'sched': common.draw_sched(rng, grans=('sync', 'line', 'opcode'), weights=(1, 2, 3), expected_steps=1200, policies=('sticky', 'pct'))}
+  if rng.random() < 0.3:
+    # the maximum is declared by the object's own class (a subclass with a small QUEUE_SIZE), the library default stays as it is
+    sc['objects'][0]['class_cap'] = cap
+    sc['queue_size'] = 500
+    sc['cap_eff'] = cap
   return sc
 
 
@@ -135,7 +140,7 @@ def execute(sc, sched):
       judge_concurrent(sc, run, sim, res)
     elif ok:
       hor_us = int(sc['horizon_s'] * 1e6)
-      cap = sc['queue_size']
+      cap = sc.get('cap_eff') or sc['queue_size']
       appends = ac.source_appends(run, 0)
       q = ac.replay_queue(run, 0)
       for si, s in enumerate(run.sources):
